@@ -347,12 +347,47 @@ func cmdCheck(args []string) int {
 	for _, e := range genErrs {
 		fmt.Printf("NOT-VERIFIED: %s\n", e)
 	}
+	// Anything that is not a refutation on fully modelled code (a function that left the supported subset,
+	// a contract that no longer evaluates, a failure on a path through an auto-abstracted external) leaves the
+	// property UNDECIDED by proof. It is then decided by replay on the real code: the property's oracle searches
+	// for a failing input; a hit is a violation, a clean bounded search is reported as undecided (exit 0, the
+	// evidence for this run is downgraded from proof), and if no search can be run the check fails closed.
+	undecidedOut = nil
+	decideByReplay := func(label, text string) {
+		var hits []string
+		ranAll := true
+		cases := 0
+		var cmds []string
+		for _, tags := range tsets {
+			r := runOracle(*property, tags, replayBudgetMs, seed)
+			if !r.ran || strings.Contains(r.output, "build failed") || (r.cases == 0 && !r.failed) {
+				ranAll = false
+				continue
+			}
+			cases += r.cases
+			cmds = append(cmds, r.cmd)
+			if r.failed {
+				hits = append(hits, r.inputs...)
+			}
+		}
+		switch {
+		case len(hits) > 0:
+			path := writeReplay(*property, label, text+"\nCONFIRMED on the real code by the property's oracle; failing inputs:\n  "+strings.Join(hits, "\n  ")+"\nreplay command: "+strings.Join(cmds, "\n"), nil)
+			fmt.Printf("VIOLATION property=%s replay=%s obligation=%s\n", *property, path, label)
+			violations++
+			exit = 1
+		case !ranAll:
+			path := writeReplay(*property, label, text+"\nno bounded search could be run on this tree; the property is undecided and the check fails closed", nil)
+			fmt.Printf("VIOLATION property=%s replay=%s obligation=%s no-failing-input-found\n", *property, path, label)
+			violations++
+			exit = 1
+		default:
+			fmt.Printf("UNDECIDED: property=%s %s: not decided by proof on this tree; bounded replay on the real code found no failing input (%d cases)\n", *property, label, cases)
+			undecidedOut = append(undecidedOut, label+": "+firstLines(text, 4))
+		}
+	}
 	if len(genErrs) > 0 {
-		// a function that cannot be processed is reported against the property: nothing is silently passed
-		path := writeReplay(*property, "generator", strings.Join(genErrs, "\n"), nil)
-		fmt.Printf("VIOLATION property=%s replay=%s obligation=generator-errors no-failing-input-found\n", *property, path)
-		violations++
-		exit = 1
+		decideByReplay("generator-errors", strings.Join(genErrs, "\n"))
 	}
 	seenSite := map[string]bool{}
 	for _, ob := range failed {
@@ -370,6 +405,10 @@ func cmdCheck(args []string) int {
 		seenSite[site] = true
 		if k := kf.match(*property, ob); k != nil {
 			fmt.Printf("KNOWN-FINDING: property=%s %s\n", *property, k.what)
+			continue
+		}
+		if len(ob.Abstracted) > 0 {
+			decideByReplay(ob.Name, fmt.Sprintf("obligation %s (%s) is undischarged (%s) on a path through auto-abstracted external calls %v; such a failure counts only if it replays", ob.Name, ob.Descr, ob.Result.Status, ob.Abstracted))
 			continue
 		}
 		path, confirmed := replayObligation(progs, *property, ob)
@@ -426,6 +465,7 @@ func cmdCheck(args []string) int {
 
 var nSmokes int
 var standinsOut []map[string]interface{}
+var undecidedOut []string
 
 // boundedStandins: what the oracle run stands in for (parts of the property no discharged contract covers).
 var boundedStandins = map[string]string{
@@ -463,7 +503,11 @@ func writeEvidence(property, tier string, seed int, all []*Obligation, funcs []f
 	stats.mu.Lock()
 	sv := map[string]interface{}{"wins": stats.wins, "solver_seconds": stats.seconds, "calls": stats.calls}
 	stats.mu.Unlock()
-	ev := evidence{PropertyID: property, Tier: tier, Seed: seed, Level: "proof", WallS: wall, Violations: violations,
+	level := "proof"
+	if len(undecidedOut) > 0 {
+		level = "other" // not a proof on this tree: see coverage.undecided
+	}
+	ev := evidence{PropertyID: property, Tier: tier, Seed: seed, Level: level, WallS: wall, Violations: violations,
 		Coverage: map[string]interface{}{
 			"obligations":          len(all) - nTriv,
 			"discharged":           nDis,
@@ -479,6 +523,7 @@ func writeEvidence(property, tier string, seed int, all []*Obligation, funcs []f
 			"samples":              samples,
 			"bounded_standins":     standinsOut,
 			"vacuity_probes":       nSmokes,
+			"undecided":            undecidedOut,
 		},
 		Assumptions: assumptionList(progs),
 	}
